@@ -43,10 +43,13 @@ impl AckFrequencyState {
         // Use the peer's max_ack_delay if no custom max_ack_delay was provided in the config
         let min_ack_delay =
             Duration::from_micros(peer_params.min_ack_delay.map_or(0, |x| x.into()));
+        // The peer's `min_ack_delay` may exceed both the RTT and `MIN_AUTOMATIC_ACK_DELAY`; we can never
+        // request less than it, so it also bounds the range from above (`clamp` panics if min > max)
+        let upper = rtt.max(MIN_AUTOMATIC_ACK_DELAY).max(min_ack_delay);
         config
             .max_ack_delay
             .unwrap_or(self.peer_max_ack_delay)
-            .clamp(min_ack_delay, rtt.max(MIN_AUTOMATIC_ACK_DELAY))
+            .clamp(min_ack_delay, upper)
     }
 
     /// Returns the `max_ack_delay` for the purposes of calculating the PTO
